@@ -20,11 +20,13 @@ CONSTANTS Attr,        \* the attribute tree: set of [owner, name, target]; owne
           ExtraLoads,  \* [module path -> further module paths its own code imports]
           SkipForms,   \* values of skip_unknown explored: [mode |-> "false" | "true" | "list", names |-> set of selectors]
           Templates,   \* statements a file may contain
-          MaxStmts
+          MaxStmts,
+          PrevDocs     \* files that may have been parsed (successfully, in the same process) before this one
 
 VARIABLES doc,         \* the file after the enabling statement: sequence of statements
-          skip         \* the skip_unknown argument of the parse
-vars == <<doc, skip>>
+          skip,        \* the skip_unknown argument of the parse
+          prev         \* an earlier dynamic-registration file: what it imported, registered and bound stays behind
+vars == <<doc, skip, prev>>
 
 (* statements:
    [t |-> "import", form |-> "plain" | "as" | "from" | "fromas", module |-> path, alias |-> "" or name]
@@ -133,7 +135,21 @@ Run(st, d, k) ==
   IF k > Len(d) THEN [status |-> "ok", st |-> st, at |-> 0]
   ELSE LET r == ApplyStmt(st, d[k]) IN
        IF r.status # "ok" THEN [status |-> r.status, st |-> r.st, at |-> k] ELSE Run(r.st, d, k + 1)
-Result == Run(EmptyState, doc, 1)
+\* a new file starts with an empty symbol table (158-166); the registry, the bindings and Python's loaded modules stay
+NewFile(st) == [st EXCEPT !.symbols = {}, !.source = {}, !.imports = <<>>]
+RECURSIVE RunNoSkip(_, _, _)
+RunNoSkip(st, d, k) ==       \* the earlier file is a valid one and was parsed without skip_unknown
+  IF k > Len(d) THEN st
+  ELSE LET s == d[k] IN
+       IF s.t = "import"
+       THEN RunNoSkip([st EXCEPT !.symbols = { e \in @ : e.name # BoundName(s) } \cup {[name |-> BoundName(s), node |-> ImportedObject(s)]},
+                                 !.source = { e \in @ : e.name # BoundName(s) } \cup {[name |-> BoundName(s), stmt |-> s]},
+                                 !.loaded = @ \cup LoadedBy(s.module), !.imports = Append(@, s)], d, k + 1)
+       ELSE LET c == Configurable(st, s.sel) IN
+            RunNoSkip([c.st EXCEPT !.cfg = { b \in @ : ~(b.obj = c.obj /\ b.param = s.param) }
+                                           \cup {[obj |-> c.obj, param |-> s.param, val |-> s.val]}], d, k + 1)
+PrevState == RunNoSkip(EmptyState, prev, 1)
+Result == Run(NewFile(PrevState), doc, 1)
 
 ------------------------------------------------------------------------------
 (* What Python's own semantics say a dotted name denotes in this file (independent of gin's bookkeeping):
@@ -143,6 +159,7 @@ PyBinding(d, k, name) ==       \* node bound to `name` just before statement k, 
   IF idx = {} THEN "none"
   ELSE LET i == CHOOSE i \in idx : \A j \in idx : j <= i IN ImportedObject(d[i])
 PyLoaded(d, k) == UNION { LoadedBy(d[i].module) : i \in { j \in 1..(k - 1) : d[j].t = "import" /\ d[j].module \in DOMAIN ModuleOf } }
+                  \cup UNION { LoadedBy(prev[i].module) : i \in { j \in 1..Len(prev) : prev[j].t = "import" } }   \* sys.modules is per process
 RECURSIVE PyWalk(_, _, _)
 PyWalk(loaded, node, names) ==
   IF names = <<>> THEN node
@@ -192,11 +209,15 @@ C19_Errors ==
 C19_NothingElse ==
   LET r == Result
       n == IF r.status = "ok" THEN Len(doc) ELSE r.at - 1
-  IN \A b \in r.st.cfg : \E k \in 1..n : doc[k].t = "bind" /\ PyDenotes(doc, k) = b.obj /\ doc[k].param = b.param
+      fromDoc(b) == \E k \in 1..n : doc[k].t = "bind" /\ PyDenotes(doc, k) = b.obj /\ doc[k].param = b.param
         /\ b.val = (IF PyRefDropped(doc, k) THEN "unk" ELSE doc[k].val)
         /\ \A j \in (k + 1)..n : ~(doc[j].t = "bind" /\ PyDenotes(doc, j) = b.obj /\ doc[j].param = b.param)
+      \* what the earlier file bound stays, unless this file binds the same parameter of the same object
+      fromPrev(b) == b \in PrevState.cfg /\ \A k \in 1..n : ~(doc[k].t = "bind" /\ ~PyDropped(doc, k) /\ PyDenotes(doc, k) = b.obj /\ doc[k].param = b.param)
+  IN /\ \A b \in r.st.cfg : fromDoc(b) \/ fromPrev(b)
+     /\ \A b \in PrevState.cfg : (\E c \in r.st.cfg : c.obj = b.obj /\ c.param = b.param)
 
-Init == doc = <<>> /\ skip \in SkipForms
-Next == Len(doc) < MaxStmts /\ \E t \in Templates : doc' = Append(doc, t) /\ UNCHANGED skip
+Init == doc = <<>> /\ skip \in SkipForms /\ prev \in PrevDocs
+Next == Len(doc) < MaxStmts /\ \E t \in Templates : doc' = Append(doc, t) /\ UNCHANGED <<skip, prev>>
 Spec == Init /\ [][Next]_vars
 =============================================================================
